@@ -33,6 +33,7 @@ var futBodies = []struct{ tag, src string }{
 }
 
 func runC10(tier string, seed uint64, rep *Report) {
+	defer c10ContextScenarios(rep, tier)
 	rep.Rule = "rounds: one future whose body is a value, a throw, a builtin error, each at once or after a sleep, a long sleep, a body that catches its own cancellation, a loop that only cancellation ends; " +
 		"2-4 harness threads each issue 2-4 of @f (with and without an expiring context), (future-done? f), (future-cancelled? f), (future-cancel f) through lisp.EVAL, released together right after the " +
 		"future is created; every call is stamped at invocation and response on a global logical clock. Then the main thread waits for future-done?, derefs with no deadline under a watchdog, and reads both flags. " +
@@ -347,6 +348,39 @@ func runC10(tier string, seed uint64, rep *Report) {
 		rep.Add(strings.TrimSpace(b.String()), "ok", listing(" ;; ")+"main: "+strings.Join(mainTxt, "  "), interesting,
 			fmt.Sprintf("threads:%d", len(progs)), fmt.Sprintf("body-runs:%d", runs))
 		_ = types.List{}
+	}
+}
+
+// futures and contexts that are not the canceller's business: a cancel that returns false changes NOTHING (futures started
+// by the completed body keep running); a future whose creator's context ended was not cancelled by anybody
+func c10ContextScenarios(rep *Report, tier string) {
+	n := 3
+	if tier == "thorough" {
+		n = 40
+	}
+	for i := 0; i < n; i++ {
+		{
+			w, _ := NewWorld()
+			src := "(do (def outer (future (future (do (sleep 40) 7)))) (def inner @outer) (list (future-cancel outer) @inner (future-cancelled? inner) (future-cancelled? outer)))"
+			o := w.EvalText(context.Background(), src)
+			idx := rep.Add("F 0", "ok", src, true, "scenario:cancel-of-a-completed-future-changes-nothing")
+			if o.Err != nil || o.Panic != nil || Show(o.Val) != "(false 7 false false)" {
+				rep.Violate(idx, fmt.Sprintf("future-cancel on a completed, never cancelled future must return false and change nothing (its body's context included: futures the body started go on): got %s, expected (false 7 false false)", d2o(o)), src)
+			}
+		}
+		{
+			w, _ := NewWorld()
+			ctx, cancel := context.WithTimeout(context.Background(), 30*time.Millisecond)
+			w.EvalText(ctx, "(def f (future (do (sleep 100000) :never)))")
+			time.Sleep(60 * time.Millisecond) // the creator's deadline passes while the body sleeps
+			cancel()
+			src := "(list (try @f (catch e :body-timed-out)) (future-cancelled? f) (future-cancel f) (future-cancelled? f) (future-done? f))"
+			o := w.EvalText(context.Background(), src)
+			idx := rep.Add("F 0", "ok", "(def f (future (do (sleep 100000) :never))) under a 30ms deadline; later: "+src, true, "scenario:creator-deadline-is-not-a-cancel")
+			if o.Err != nil || o.Panic != nil || Show(o.Val) != "(:body-timed-out false false false true)" {
+				rep.Violate(idx, fmt.Sprintf("a future whose creator's deadline passed was never cancelled by future-cancel: future-cancelled? must stay false and future-cancel on it (completed) must return false: got %s, expected (:body-timed-out false false false true)", d2o(o)), src)
+			}
+		}
 	}
 }
 
